@@ -550,6 +550,17 @@ def kindChange (k : DictKind) (key : Bytes) (v : Obj) : Bool :=
   (k == .node || k == .page || k == .tmpl) && decide (key = kType) &&
     [Obj.name kPages, Obj.name nPage, Obj.name nTemplate].contains v
 
+/-- Does the replacement value give an entry of the name dictionary BY REFERENCE?  The rules judge direct values
+    only (`fitsKind` does not follow references); `/Names << /Dests 7 0 R >>` is not a value of the wrong type but
+    a reference whose target decides (the shipped name-tree predicate is applied to the target: a page-tree node
+    `<< /Type /Pages /Kids [refs] ... >>` passes it as an intermediate name-tree node, see
+    `Parsley.C10.names_entry_by_reference_witness`).  Such replacements are not single-rule violations. -/
+def refEntry : ValKind → Obj → Bool
+  | .nameDict, .dict kvs => nameTreeKeys.any fun k => match kvs.get k with
+    | some t => t.isRef
+    | none => false
+  | _, _ => false
+
 /-- is `m` a violation of exactly one rule at an existing position of `d`? -/
 def Mutation.valid (d : Doc) : Mutation → Bool
   | .dropRequired w key =>
@@ -564,7 +575,7 @@ def Mutation.valid (d : Doc) : Mutation → Bool
     match locate d w with
     | some (k, _, _, _) =>
       match lookupKey (keyTable k) key with
-      | some vk => !structural vk && !v.isRef && !fitsKind vk v && !kindChange k key v
+      | some vk => !structural vk && !v.isRef && !fitsKind vk v && !kindChange k key v && !refEntry vk v
       | none => false
     | none => false
   | .unlistedName w key n =>
